@@ -145,6 +145,11 @@ def obligations(tier, seed):
     members.append(("prod", spec, [["w0", 1, 2], ["w1", 1, 2]], {"z0": 1, "z1": 1, "cap0": 1, "cap1": 1, "fs0": 1, "fs1": 1}))
     members.append(("subtask", {"tasks": [{"w": "$w0"}, {"w": "$w1", "subproject": True}], "edges": [[0, 1, 0]],
                                 "teams": profiles.layout_workers("shared1", 2), "run": {"max_time": 10, "abs": ["$pa0"]}}, [["w0", 1, 2], ["w1", 1, 2], ["pa0", 0, 6]], {}))
+    # a team without workers and a workplace without facilities still carry a cost log that must stay aligned
+    members.append(("empty-units", {"tasks": [{"w": "$w0"}, {"w": "$w1"}], "edges": [[0, 1, 0]],
+                                    "teams": [{"targets": [0, 1], "workers": [{"skills": {"0": 1, "1": 1}, "cost": 2}]}, {"targets": [1], "workers": []}],
+                                    "wps": [{"targets": [], "cap": 1, "facs": []}],
+                                    "run": {"max_time": 10, "abs": ["$pa0"]}}, [["w0", 1, 3], ["w1", 1, 2], ["pa0", 0, 6]], {}))
     seqs = [
         [["insert", ["$i0"]]], [["insert", ["$i0", "$i1"]]], [["insert", ["$i0"]], ["remove"]], [["insert", ["$i0", "$i1"]], ["remove"]],
         [["remove"]], [["remove"], ["insert", ["$i0"]]], [["insert", ["$i0"]], ["insert", ["$i1"]]],
@@ -155,7 +160,7 @@ def obligations(tier, seed):
     seqs.append([["insert", ["$i0"]], ["insert", ["$i1", "$i2", "$i3"]], ["remove"]])
     members.append(("wf-backward", members[0][1], [["w0", 1, 2], ["w1", 1, 2], ["pa0", 0, 6]], {"backward": True}))
     for mname, spec, params, consts in members:
-        for ops in (seqs if mname not in ("subtask", "wf-backward") else seqs[:1] + seqs[4:5]):
+        for ops in (seqs if mname not in ("subtask", "wf-backward", "empty-units") else (seqs[:1] + seqs[4:5] + (seqs[2:3] if mname == "empty-units" else []))):
             if len(ops) == 3 and mname != "wf2teams" and not thorough:
                 continue
             names = sorted({x[1:] for o in ops if len(o) > 1 for x in o[1]})
